@@ -343,6 +343,25 @@ func (e *Engine) guardOf(structT types.Type, field int) *GuardDecl {
 	return nil
 }
 
+// contentsGuardOf: the guard of the contents (map entries / slice elements) of a field declared "name[]".
+func (e *Engine) contentsGuardOf(structT types.Type, field int) *GuardDecl {
+	n, ok := structT.(*types.Named)
+	if !ok || n.Obj().Pkg() == nil {
+		return nil
+	}
+	fname := structT.Underlying().(*types.Struct).Field(field).Name()
+	for _, g := range e.contracts.Guards {
+		if g.Pkg == n.Obj().Pkg().Path() && g.Struct == n.Obj().Name() {
+			for _, f := range g.Fields {
+				if f == fname+"[]" || f == fname {
+					return g
+				}
+			}
+		}
+	}
+	return nil
+}
+
 func (e *Engine) isWaited(structT types.Type, field int) bool {
 	n, ok := structT.(*types.Named)
 	if !ok || n.Obj().Pkg() == nil {
@@ -415,10 +434,13 @@ func (e *Engine) guardedSVs(vc *VC, class string) []string {
 		st := t.Underlying().(*types.Struct)
 		for i := 0; i < st.NumFields(); i++ {
 			f := st.Field(i)
-			match := false
+			match, contentsOnly := false, false
 			for _, gf := range g.Fields {
 				if gf == f.Name() {
 					match = true
+				}
+				if gf == f.Name()+"[]" {
+					match, contentsOnly = true, true
 				}
 			}
 			if !match {
@@ -433,7 +455,9 @@ func (e *Engine) guardedSVs(vc *VC, class string) []string {
 				continue
 			}
 			sv, _ := vc.fieldSV(t, i)
-			set[sv] = true
+			if !contentsOnly {
+				set[sv] = true
+			}
 			switch u := f.Type().Underlying().(type) {
 			case *types.Slice:
 				set[vc.elemSV(u.Elem())] = true
@@ -527,6 +551,13 @@ func (e *Engine) verifyFunction(fc *FuncContract) (*VC, error) {
 		}
 		vc.fact("true", t)
 	}
+	for i, r := range fc.ObjInv {
+		t, err := vc.specBoolAt(fr, st, st, r, nil)
+		if err != nil {
+			return vc, fmt.Errorf("invariant %d of %s: %v", i+1, fc.Key, err)
+		}
+		vc.fact("true", t)
+	}
 	for _, w := range fc.Witness {
 		v, err := vc.specEval(fr, st, st, w, nil)
 		if err == nil {
@@ -551,6 +582,13 @@ func (e *Engine) verifyFunction(fc *FuncContract) (*VC, error) {
 				o.Props = ps
 			}
 		}
+	}
+	for i, en := range fc.ObjInv {
+		t, err := vc.specBoolAt(fr, exit, vc.entry, en, nil)
+		if err != nil {
+			return vc, fmt.Errorf("invariant %d of %s: %v", i+1, fc.Key, err)
+		}
+		vc.oblige(exit, "objinv", fmt.Sprint(i+1), "object invariant re-established at exit: "+en, t, fn.Pos())
 	}
 	// K2 exit obligations
 	if len(vc.lockTerms) > 0 && !fc.LocksChange {
@@ -607,6 +645,12 @@ func (vc *VC) frameSetup(fr *Frame, fc *FuncContract) {
 			if sl, ok := v.typ.Underlying().(*types.Slice); ok {
 				sv := vc.elemSV(sl.Elem())
 				vc.frameObjs[sv] = append(vc.frameObjs[sv], vc.def("Int", fmt.Sprintf("(s_arr %s)", v.term), "fr"))
+			}
+			if mt, ok := v.typ.Underlying().(*types.Map); ok {
+				d, vv := vc.mapSV(mt)
+				mref := vc.def("Int", v.term, "fr")
+				vc.frameObjs[d] = append(vc.frameObjs[d], mref)
+				vc.frameObjs[vv] = append(vc.frameObjs[vv], mref)
 			}
 			continue
 		}
@@ -689,7 +733,22 @@ func (vc *VC) frameSetup(fr *Frame, fc *FuncContract) {
 
 // assignCheck: a write to object obj of state variable sv is allowed by the modifies clause
 // (or the object was allocated by this function).
+func (vc *VC) hiddenSV(sv string) bool {
+	// state variables of unexported fields of another package's types are invisible to this caller
+	if vc.frameHidePkg == "" {
+		return false
+	}
+	p := vc.eng.typesPkg(vc.frameHidePkg)
+	if p == nil {
+		return false
+	}
+	return strings.HasPrefix(sv, "F_"+sanitizeID(p.Name()+"."))
+}
+
 func (vc *VC) assignCheck(fr *Frame, st *State, sv, obj string, pos token.Pos) {
+	if vc.hiddenSV(sv) {
+		return
+	}
 	if vc.inSpec > 0 || vc.fc == nil || vc.fc.ModifiesAll || vc.fc.NoFrame || vc.frameWhole == nil {
 		return
 	}
@@ -705,6 +764,9 @@ func (vc *VC) assignCheck(fr *Frame, st *State, sv, obj string, pos token.Pos) {
 }
 
 func (vc *VC) assignCheckWhole(fr *Frame, st *State, sv string, pos token.Pos) {
+	if vc.hiddenSV(sv) {
+		return
+	}
 	if vc.inSpec > 0 || vc.fc == nil || vc.fc.ModifiesAll || vc.fc.NoFrame || vc.frameWhole == nil {
 		return
 	}
